@@ -374,6 +374,8 @@ func runC18(e *Engine, r *Report) {
 	ruleHintVoting(e, r)
 	ruleSingleNodeQuorum(e, r)
 	ruleSelfRemoved(e, r)
+	borrow(e, r, "C08", "MPT-restore-replaces")
+	borrow(e, r, "C03", "GD-tally")
 }
 
 func itoa(i int) string {
